@@ -204,6 +204,44 @@ end subroutine Misc
 """,
 })
 
+VALID.update({
+    # a module, an external subroutine and a main program without PROGRAM statement in one file
+    "anon": """module Consts
+  real :: Pi = 3.14
+end module Consts
+subroutine Helper(x)
+  real :: x
+  x = x + 1.0
+end subroutine Helper
+integer :: Count
+real :: Val
+Count = 2
+Val = sin(1.0) * Count
+if (Count > 1) then
+  call Helper(Val)
+end if
+end
+""",
+    # a main program whose body is nothing but preprocessor lines; nested labelled DO loops with an unresolved INCLUDE in between
+    "cppbody": """program Only_Cpp
+#include "decls.h"
+#ifdef WITH_BODY
+#include "body.h"
+#endif
+end program Only_Cpp
+subroutine Nest(a, n)
+  integer :: n, i, j
+  real :: a(n, n)
+  do 20 i = 1, n
+    include 'not_found.inc'
+    do 10 j = 1, n
+      a(i, j) = 0.0
+10  continue
+20 continue
+end subroutine Nest
+""",
+})
+
 VALID_2008 = {
     "block": """program Blk
   integer :: i
@@ -218,6 +256,19 @@ VALID_2008 = {
   end critical
   error stop
 end program Blk
+""",
+    "deepsub": """submodule (Parent) Deep
+contains
+  module subroutine Outer_Proc(v, b)
+    real :: v(3), b(3), w
+    w = Inner(v)
+  contains
+    function Inner(u) result(t)
+      real :: u(3), t
+      t = dot_product(u, b, 0.5)
+    end function Inner
+  end subroutine Outer_Proc
+end submodule Deep
 """,
     "submodule": """submodule (Parent) Child
 contains
